@@ -390,7 +390,7 @@ class Engine:
         if i < len(self.prefix):
             b, ph, _ = self.prefix[i]
             if ph != h:
-                raise ZNonDeterministic("decision %d differs between executions" % i)
+                raise ZNonDeterministic("decision %d differs between executions: now %s" % (i, cond.sexpr()[:200]))
             self.solver.add(cond if b else z3.Not(cond))
             self.trace.append((b, h, tag))
             if i == len(self.prefix) - 1:
